@@ -157,7 +157,10 @@ def check_producers(repo, model: FsmModel, pm: ProviderModel, rep):
                     if not closes or not unsets:
                         d['problems'].add('EVT_17 path does not close and release the socket (close x%d, dul_socket=None x%d)'
                                           % (len(closes), len(unsets)))
-                    elif s.trail.index(unsets[0]) < s.trail.index(closes[0]):
+                    elif s.trail.index(unsets[0]) < s.trail.index(closes[0]) and \
+                            not any(c_.startswith('old:') and c_.endswith('=self.dul_socket') for c_ in closes[0].conds):
+                        # (closing through a local that was bound to the socket before the attribute was released -- the
+                        # ``sock, self.dul_socket = self.dul_socket, None`` idiom -- closes the socket all the same)
                         d['problems'].add('dul_socket released before close()')
                 elif n == 18:
                     if nonneg and any(zero_exceeds_limit(c_, 'self.timer') for c_ in conds):
